@@ -253,6 +253,34 @@ pub fn small_docs(ctx: &Ctx, n: usize) -> Vec<Vec<u8>> {
     out
 }
 
+/// documents whose prologue or root tag is LONG (sizes around powers of two and a few large ones): padding by a comment,
+/// by white space or by a processing instruction before the root element, by white space inside the root tag, and by a
+/// long first comment inside the root - any fixed-size window a header probe might use is straddled
+pub fn long_prologue_docs() -> Vec<Vec<u8>> {
+    let v = AutosarVersion::Autosar_00050;
+    let open = autosar_open(v);
+    let body = "<AR-PACKAGES><AR-PACKAGE><SHORT-NAME>P</SHORT-NAME></AR-PACKAGE></AR-PACKAGES></AUTOSAR>";
+    let mut sizes: Vec<usize> = vec![0, 1, 100, 1000, 20_000, 70_000];
+    for p in [9usize, 10, 11, 12, 13, 14, 16] {
+        let b = 1usize << p;
+        for d in [-300i64, -120, -40, -8, -1, 0, 1, 8, 40, 120] {
+            sizes.push((b as i64 + d).max(0) as usize);
+        }
+    }
+    let mut out = vec![];
+    for n in sizes {
+        let pad_c = "c".repeat(n);
+        let pad_w = " ".repeat(n);
+        out.push(format!("{XML_HDR}<!--{pad_c}-->\n{open}{body}").into_bytes());
+        out.push(format!("{XML_HDR}{pad_w}\n{open}{body}").into_bytes());
+        out.push(format!("{XML_HDR}<?pi {pad_c}?>\n{open}{body}").into_bytes());
+        out.push(format!("{XML_HDR}{}{pad_w}>{body}", &open[..open.len() - 1]).into_bytes());
+        out.push(format!("{XML_HDR}{open}<!--{pad_c}-->{body}").into_bytes());
+        out.push(format!("{pad_w}{XML_HDR}{open}{body}").into_bytes());
+    }
+    out
+}
+
 pub fn header_variants() -> Vec<Vec<u8>> {
     // <?xml with 0-3 attributes in all quote / blank shapes
     let names = ["version", "encoding", "standalone", "bogus"];
